@@ -18,6 +18,8 @@ EXPLANATION = (
     'commas (evaluated on every token kind). R13.3: the kinds Function.get_parameters returns for a single argument agree '
     'with the kinds group_identifier_list accepts as a list item (sibling agreement). R13.4: the keywords of Case.get_cases, '
     'the TypedLiteral open/close/extend tables and Comparison.left/right are well typed against what the lexer emits. '
+    'R13.5: grouping is total -- no size/depth cut-off in the drivers, the @recurse closure iterates get_sublists() unconditionally, '
+    'descends into every group its class filter admits and applies the pass to every list; get_sublists yields every group child. '
     'Not decided: extents and contents of the nodes on arbitrary queries.')
 
 CLOSERS = ['GROUP BY', 'ORDER BY', 'LIMIT', 'UNION', 'EXCEPT', 'HAVING', 'RETURNING', 'INTO']
